@@ -86,6 +86,38 @@ def rule_legacy_attr_parser(ctx):
             if mm:
                 for p in _pat_alternatives(arm["pat"]):
                     slots.setdefault(mm.group(1), []).append((p, mm.group(2), guarded))
+    # the recursion hands the *name of the list it just matched* down as the wrapper: that is what makes `not(source)` mean
+    # (Some("not"), "source") and `ref(T)` record T under the `ref` kind only
+    recs = [(c, cps_) for c, cps_ in A.find(pn.block, "Expr::Call") if A.path_str(c["func"]) == pn.name]
+    ctx.instance("nested:recursion", sample=len(recs))
+    if not recs:
+        raise A.AnchorLost(f"{UTILS}::parse_punctuated_nested_meta", "no recursive call")
+    params = [A.pat_idents(p_["0"]["pat"]) for p_ in pn.node["sig"]["inputs"] if A.kind(p_) == "FnArg::Typed"]
+    wpos = next((i for i, ns in enumerate(params) if ns == ["wrapper_name"]), None)
+    if wpos is None:
+        raise A.AnchorLost(f"{UTILS}::parse_punctuated_nested_meta", "no `wrapper_name` parameter")
+    from .. import types as TY
+
+    for c, cps in recs:
+        a = A.peel(c["args"][wpos]) if wpos < len(c["args"]) else None
+        ok = False
+        if a is not None and A.kind(a) == "Expr::Call" and A.path_str(a["func"]) == "Some" and len(a["args"]) == 1:
+            inner = A.peel(a["args"][0])
+            while A.kind(inner) in ("Expr::Reference", "Expr::Paren", "Expr::Group"):
+                inner = inner["expr"]
+            src = inner
+            if A.kind(inner) == "Expr::Path" and "::" not in (A.path_str(inner) or "::"):
+                b = TY.resolve(pn, A.path_str(inner), (A.span_of(inner) or [0])[0])
+                if b is not None and b.get("init") is not None:
+                    src = b["init"]
+            rs = A.render(src)
+            ok = ("path" in rs or "list" in rs) and "wrapper_name" not in rs
+            if A.kind(src) == "Expr::Lit":
+                # a literal name is right under an arm guarded by `is_ident(<that literal>)`
+                arm = next((x for x in reversed(cps) if A.kind(x) == "Arm"), None)
+                ok = arm is not None and arm.get("guard") is not None and f"is_ident({rs})" in A.render(arm["guard"][1] if isinstance(arm["guard"], list) else arm["guard"])
+        if not ok:
+            ctx.report("legacy:wrapper-propagation", ctx.where(f, c), f"the recursive call passes `{A.render(c['args'][wpos]) if wpos < len(c['args']) else '?'}` as wrapper instead of `Some(<name of the list just matched>)`: inside `not(..)` / `ref(..)` the parameters are then read as if written at top level (`not(source)` selects the field, `not(forward)` forwards, `ref(T)` records T for every reference kind)", {})
     ctx.instance("nested:not-depth")
     if A.wsearch(t, 'polyfill::Meta::List(list) if list.path.is_ident("not")=>{if wrapper_name.is_some(){return Err(') is None:
         ctx.report("legacy:nested-not", w, "nested / repeated `not(..)` is no longer rejected (unbounded recursion on the attribute's nesting)", {})
